@@ -11,3 +11,5 @@ CONSTANTS
   MaxN = 5
   MaxM = 6
   MaxF = 1
+  LemmaRuns = 2
+  LemmaV = 3
